@@ -148,6 +148,39 @@ def part_vertex(ctx):
         w.dual_hull = Hull()
         w._extract_wulff_from_dual_mesh()
         return w
+    # the points handed to qhull are the dual points (the stub records its argument)
+    seen = {}
+
+    class HullRec:
+        def __init__(self, pts, *a, **k):
+            seen["pts"] = pts
+            self.simplices = np.array([[2, 1, 3]])
+    oldhull = mw.ConvexHull
+    mw.ConvexHull = HullRec
+    try:
+        exh = Explorer(assumptions=cons + [e.t > 0 for e in E])
+
+        def hull_input():
+            w = duals()
+            w._construct_dual_space_hull()
+            return w
+        ph = exh.run(hull_input)
+    finally:
+        mw.ConvexHull = oldhull
+    ctx.add_paths(exh)
+    okh = len(ph) == 1 and ph[0].exc is None and "pts" in seen
+    if okh:
+        pts = np.asarray(seen["pts"], dtype=object)
+        wh = ph[0].value
+        okh = pts.shape == (4, 3) and getattr(wh, "dual_hull", None) is not None
+        if okh:
+            rh = ctx.query("hull input: the point set handed to the convex-hull routine is n_i / e_i for every facet", ph[0].pc,
+                           z3.And([(Sym._lift(pts[i][k]) * E[i] == N[i][k]).t for i in range(4) for k in range(3)]), ex=exh)
+            okh = rh.verdict != "cex"
+    if not okh:
+        ctx.record("hull input: dual points n/e are handed to the convex-hull routine", "counterexample", nontrivial=True)
+        ctx.violation("wulff:vertex", "the convex hull is not taken of the dual points n_i / e_i", {}, replay_wulff)
+        return
     ex = Explorer(assumptions=cons + [e.t > 0 for e in E] + [s.t > 0])
     paths = ex.run(lambda: (duals(), build(), build(s)))
     ctx.add_paths(ex)
